@@ -1,7 +1,7 @@
 (* C05: concrete instances showing that the hypotheses of the C05 theorems are satisfiable (non-vacuity). *)
 From Coq Require Import List Arith Lia PeanoNat Bool ZArith.
 From TV Require Import Num.Ops Lin.Tab Lin.BigSum Lin.Mat TT.Chain Model.Cross Model.CrossNum Proofs.CrossIdx Proofs.CrossGeo
-  Proofs.CrossP Proofs.Cross05P Proofs.Cross05PSim Proofs.Cross05PInterp Proofs.Cross05PNum.
+  Proofs.CrossP Proofs.Cross05P Proofs.Cross05PSim Proofs.Cross05PInterp Proofs.Cross05PNum Proofs.Cross05PRtl.
 Import ListNotations.
 Local Open Scope nat_scope.
 
@@ -128,3 +128,47 @@ Qed.
 Lemma ex_num_values :
   map (ttval OZ (sY (iterate stepZN 2 s0N))) [[0; 0]; [1; 0]; [0; 1]; [1; 1]]%nat = [1; 2; 2; 4].
 Proof. vm_compute. reflexivity. Qed.
+
+(* ---------- the way back and the full sweep on the same instance ---------- *)
+Definition s1N := iterate stepZN 2 s0N.
+
+Lemma ex_rtl_hyps :
+  length (sIc s0N) = S (d CN) /\
+  (forall k, (k < d CN)%nat ->
+     rpos_ok OZ qrI mvI0 mvB0 AZ CN s1N (d CN - 1 - k) (iterate stepZN k s1N)).
+Proof.
+  split; [vm_compute; reflexivity|].
+  intros k Hk. change (d CN) with 2%nat in *.
+  assert (k = 0 \/ k = 1)%nat as [->| ->] by lia.
+  - change (2 - 1 - 0)%nat with 1%nat. split; [|split; [apply qrI_ok|]].
+    + assert (E1 : orl (nth 1 (sIr s1N) None) = [[0%nat]]) by (vm_compute; reflexivity).
+      assert (E2 : orl (nth 2 (sIc (iterate stepZN 0 s1N)) None) = [[]]) by (vm_compute; reflexivity).
+      rewrite E1, E2. change (nth 1 (nsN CN) 0%nat) with 2%nat. change (firstn 1 (nsN CN)) with [2%nat].
+      exists (fun a u => Z.of_nat (nth 0%nat u 0%nat) + 1). intros t u Ht Hu.
+      inversion Hu as [|j n' u' ns' Hj Hu']; subst. inversion Hu'; subst. cbn [length] in Ht.
+      assert (t = 0%nat \/ t = 1%nat) as [->| ->] by lia; unfold AZ, rcand, bsum; cbn;
+        destruct (Z.of_nat j + 1); lia.
+    + unfold mv_ok_at, mvI0, mvB0. cbv zeta. split; [repeat constructor; vm_compute; lia|].
+      intros t c Ht Hc.
+      assert (Er : mr (fst (qrI (Zr_of OZ AZ CN s1N 1 (iterate stepZN 0 s1N)))) = 2%nat) by (vm_compute; reflexivity).
+      assert (Ec : mc (fst (qrI (Zr_of OZ AZ CN s1N 1 (iterate stepZN 0 s1N)))) = 1%nat) by (vm_compute; reflexivity).
+      rewrite Er in Ht. rewrite Ec in Hc. assert (c = 0%nat) by lia. subst c.
+      assert (t = 0%nat \/ t = 1%nat) as [->| ->] by lia; vm_compute; reflexivity.
+  - change (2 - 1 - 1)%nat with 0%nat. split; [|split; [apply qrI_ok|]].
+    + assert (E1 : orl (nth 0 (sIr s1N) None) = [[]]) by (vm_compute; reflexivity).
+      assert (E2 : orl (nth 1 (sIc (iterate stepZN 1 s1N)) None) = [[0%nat]]) by (vm_compute; reflexivity).
+      rewrite E1, E2. change (nth 0 (nsN CN) 0%nat) with 2%nat. change (firstn 0 (nsN CN)) with (@nil nat).
+      exists (fun a u => 1). intros t u Ht Hu. inversion Hu; subst. cbn [length] in Ht.
+      assert (t = 0%nat \/ t = 1%nat) as [->| ->] by lia; vm_compute; reflexivity.
+    + unfold mv_ok_at, mvI0, mvB0. cbv zeta. split; [repeat constructor; vm_compute; lia|].
+      intros t c Ht Hc.
+      assert (Er : mr (fst (qrI (Zr_of OZ AZ CN s1N 0 (iterate stepZN 1 s1N)))) = 2%nat) by (vm_compute; reflexivity).
+      assert (Ec : mc (fst (qrI (Zr_of OZ AZ CN s1N 0 (iterate stepZN 1 s1N)))) = 1%nat) by (vm_compute; reflexivity).
+      rewrite Er in Ht. rewrite Ec in Hc. assert (c = 0%nat) by lia. subst c.
+      assert (t = 0%nat \/ t = 1%nat) as [->| ->] by lia; vm_compute; reflexivity.
+Qed.
+
+Lemma ex_full_values :
+  map (ttval OZ (sY (iterate stepZN 4 s0N))) [[0; 0]; [1; 0]; [0; 1]; [1; 1]]%nat = [1; 2; 2; 4] /\
+  s_pc (iterate stepZN 4 s0N) = Run true true 0.
+Proof. vm_compute. split; reflexivity. Qed.
